@@ -73,7 +73,7 @@ fn main() {
             }
             writeln!(out, "SUMMARY cases={} sequences={} oracle_failures={}", o.cases, o.seqs, o.fails.len()).unwrap();
         }
-        "dirs" | "advdir" | "c10" | "c11" | "c12" | "c13" | "c14" | "c20" | "c18" | "c19" | "proto" => {
+        "dirs" | "advdir" | "c10" | "c11" | "c12" | "c13" | "c14" | "c20" | "c18" | "c19" | "proto" | "c13par" => {
             let cx = match cmd {
                 "dirs" => dirs::run(arg(&args, 2, 1u64), arg(&args, 3, 0u32)),
                 "advdir" => advdir::run(arg(&args, 2, 1u64), arg(&args, 3, 0u32)),
@@ -81,6 +81,7 @@ fn main() {
                 "c14" | "c20" => matrix::run(arg(&args, 2, 1u64), arg(&args, 3, 0u32), cmd),
                 "c12" | "c13" => sched::run(arg(&args, 2, 1u64), arg(&args, 3, 0u32), cmd),
                 "proto" => sched::proto(arg(&args, 2, 1u64), arg(&args, 3, 0u32)),
+                "c13par" => sched::c13par(arg(&args, 2, 1u64), arg(&args, 3, 0u32)),
                 _ => faults::run(arg(&args, 2, 1u64), arg(&args, 3, 0u32), cmd),
             };
             out.write_all(cx.out.as_bytes()).unwrap();
